@@ -572,6 +572,21 @@ class Flow:
                         kx, _ = self.cn.key(x_)
                         extra.append((kx, ("case:" if eq else "not:") + cname))
                         break
+                # a number / pointer used as a truth value and its comparison with zero are one test: `if (n)` / `if (n != 0)` / `if (0 != n)`
+                for k_, p_ in list(facts):
+                    if not isinstance(p_, bool) or not isinstance(k_, str):
+                        continue
+                    m_ = _ZERO_EQ.match(k_)
+                    if m_:
+                        x_ = m_.group(1) or m_.group(2)
+                        if not re.match(r"^-?\d", x_):
+                            add_(k_, x_, not p_)
+                        continue
+                    node_ = self.cn.key_node.get(k_)
+                    if node_ is not None and not k_.startswith("(") and not k_.startswith("!") and not _SIZE_TRUTH.match(k_):
+                        nn_ = f.nodes[f.strip(node_)]
+                        if nn_.get("tw") in ("i8", "i16", "i32", "i64", "u8", "u16", "u32", "u64") and nn_["k"] in ("ref", "member", "call"):
+                            add_(k_, "(0 == %s)" % k_, not p_)
                 # emptiness tests in all their spellings: c.size() (as a truth value), c.size() == 0, c.size() > 0, c.empty()
                 for k_, p_ in list(facts):
                     if not isinstance(p_, bool) or not isinstance(k_, str):
@@ -907,6 +922,7 @@ _SIZE_TRUTH = re.compile(r"^(.+)\.(?:size|length)\(\)$")
 _SIZE_ZERO = re.compile(r"^\(0 == (.+)\.(?:size|length)\(\)\)$|^\((.+)\.(?:size|length)\(\) == 0\)$")
 _SIZE_POS = re.compile(r"^\(0 < (.+)\.(?:size|length)\(\)\)$|^\((.+)\.(?:size|length)\(\) > 0\)$")
 _EMPTY = re.compile(r"^(.+)\.empty\(\)$")
+_ZERO_EQ = re.compile(r"^\((?:0|nullptr) == (.+)\)$|^\((.+) == (?:0|nullptr)\)$")
 
 
 def dominators(fn):
